@@ -24,6 +24,12 @@ CLAIMS = {
  "C17": dict(engine="coq-layer-g", tech="Coq proof over definitions regenerated from the code (jaxpr translation) + direct predicate on the implementation",
    text="Full for the real-number semantics: bounds, strict monotonicity and both round trips of sigmoid, softplus, negative softplus, affine, masked and chained transforms for ALL real x and all lower<upper; chains of any length and ParamTransform (as map2 over leaves) as list theorems. float64 round trips are tested where the inverse is representable.",
    note=G_NOTE, ref="DESIGN.md §5 C17"),
+ "C06": dict(engine="coq-layer-m", tech="Coq proof about an executable model of nested_checkpoint_scan/integrate + direct predicate on the implementation",
+   text="Partial: proved (axiom-free, any nesting depth, any lengths whose product covers the run) that nested_checkpoint_scan equals lax.scan and that integrate's recordings do not depend on checkpoint_lengths or on the zero padding. jit/vmap equivalence, bit-identical repetition and purity of integrate (deep snapshot of the module) are decided by the direct predicate on sampled models: they live in XLA/JAX and CPython object identity, which no Coq model of this code can exhibit.",
+   note=M_NOTE + " Trusted: XLA/jit/vmap preserve the semantics of a pure traced function; jax.checkpoint is the identity.", ref="DESIGN.md §5 C06"),
+ "C07": dict(engine="coq-layer-m", tech="Coq proof about an executable model of integrate's time loop + direct predicate on the implementation",
+   text="Full for the model: proved (axiom-free, all splits, all layouts) that n1+n2 steps = n1 steps then n2 steps from the returned state, that manual stepping equals integrate, that column k is the state after k steps, and that the returned state is the last column's state exactly when prod(checkpoint_lengths) = steps; the padded case is a machine-checked refutation (known finding F6). Tied to the code by all splits / manual stepping / return_states on sampled models.",
+   note=M_NOTE, ref="DESIGN.md §5 C07"),
  "C20": dict(engine="coq-layer-m", tech="Coq proof about an executable model of the index layouts + correspondence with the implementation",
    text="Full for the model: Coq theorems (axiom-free, all population sizes incl. n_pre != n_post, all matrices, every number of drawn connections incl. 0 and 1) that fully_connect yields exactly pre x post once each, sparse_connect is total, connectivity_matrix_connect yields exactly the True entries, and the presynaptic site is the first compartment of its cell. The model is compared with jaxley.connect on enumerated sizes/matrices/seeds on every run; the two repaired defects stay refuted in the model of the old code.",
    note=M_NOTE, ref="DESIGN.md §5 C20"),
